@@ -13,7 +13,7 @@ fn gen(rng: &mut Rng, _i: u64) -> String {
 		for _ in 0..run {
 			data.push(match rng.below(12) { 0 => 9, 1 => 10, 2 => 13, 3 => 0x20, 4 => 0x7e, _ => rng.range(0x21, 0x7d) as u8 });
 		}
-		data.push(match rng.below(10) { 0 | 1 | 2 | 3 => 0, 4 => 0x7f, 5 => 0x1f, 6 => 0x80, 7 => 0xff, 8 => 8, _ => 11 });
+		data.push(match rng.below(11) { 0 | 1 | 2 | 3 => 0, 4 => 0x7f, 5 => 0x1f, 6 => 0x80, 7 => 0xff, 8 => 8, 9 => 12, _ => 11 });
 		if rng.chance(1, 6) { data.push(0); }
 	}
 	data.truncate(n);
